@@ -79,10 +79,15 @@ func Eval(src string, doc any) Res {
 	return EvalBoth(pa, pb, same, doc)
 }
 
+// ProseOnly makes the reference follow the prose rule of property C01 alone ("a projection's right-hand side extends
+// over following selectors until a pipe, a lower-precedence operator or a closing bracket") instead of abstaining where
+// the reference implementations read a right-hand side differently. It is the default: the property states the rule.
+var ProseOnly = true
+
 // EvalBoth is Eval on prepared parses (same: the two parses are identical).
 func EvalBoth(pa, pb ParseResult, same bool, doc any) Res {
 	r := EvalParsed(pa, doc)
-	if r.U != "" || same {
+	if r.U != "" || same || ProseOnly {
 		return r
 	}
 	if pa.Syntax != pb.Syntax {
